@@ -27,6 +27,8 @@ for i in ids:
         text = text + " " + R7[i]
     if i in globals().get('R8', {}):
         text = text + " " + R8[i]
+    if i in globals().get('R9', {}):
+        text = text + " " + R9[i]
     checks.append({
         "property_id": i,
         "quick_cmd": f"bin/vcheck -property {i} -tier quick",
